@@ -46,10 +46,13 @@ pub trait PathSyntax: Sized {
     /// ghost view of the scanner: position and input length
     spec fn idx(&self) -> nat;
     spec fn len(&self) -> nat;
+    /// is the current character a command letter (a function of the scanner state)
+    spec fn cmd_here(&self) -> bool;
 
 //@item src/path.rs :: trait PathSyntax :: fn at_command
 //@ ensures
 //@ - r is Ok ==> self.idx() < self.len()
+//@ - r is Ok ==> r->Ok_0 == self.cmd_here()
 //@end
 //@item src/path.rs :: trait PathSyntax :: fn current
 //@ ensures
@@ -123,10 +126,13 @@ pub trait PathSyntax: Sized {
 impl PathSyntax for SvgPathSyntax {
     open spec fn idx(&self) -> nat { self.index as nat }
     open spec fn len(&self) -> nat { self.data@.len() }
+    open spec fn cmd_here(&self) -> bool { contains_spec("MmLlHhVvZzCcSsQqTtAa", self.data@[self.index as int]) }
 
 //@item src/path.rs :: impl PathSyntax for SvgPathSyntax :: fn at_command
 //@end
 //@item src/path.rs :: impl PathSyntax for SvgPathSyntax :: fn current
+//@ ensures
+//@ - r is Some ==> r->Some_0 == self.data@[self.index as int]
 //@end
 //@item src/path.rs :: impl PathSyntax for SvgPathSyntax :: fn advance
 //@ before <<<self.index += 1;>>>
@@ -184,6 +190,70 @@ impl PathParser {
 pub fn new_syntax(data: &str) -> SvgPathSyntax { unimplemented!() }
 
 //@item src/path.rs :: fn path_bbox
+//@end
+
+// ------------------------------------------------------------------ src/bearing.rs
+#[verifier::external_body]
+pub fn fstr(x: R32) -> String { unimplemented!() }
+#[verifier::external_body]
+pub fn new_bearing_syntax(data: &str) -> BearingPathSyntax { unimplemented!() }
+
+//@item src/bearing.rs :: struct BearingPathSyntax
+//@end
+//@item src/bearing.rs :: struct PathBearing
+//@end
+
+impl PathSyntax for BearingPathSyntax {
+    open spec fn idx(&self) -> nat { self.index as nat }
+    open spec fn len(&self) -> nat { self.data@.len() }
+    open spec fn cmd_here(&self) -> bool { contains_spec("MmBbLlHhVvZzCcSsQqTtAa", self.data@[self.index as int]) }
+
+//@item src/bearing.rs :: impl PathSyntax for BearingPathSyntax :: fn at_command
+//@end
+//@item src/bearing.rs :: impl PathSyntax for BearingPathSyntax :: fn current
+//@ ensures
+//@ - r is Some ==> r->Some_0 == self.data@[self.index as int]
+//@end
+//@item src/bearing.rs :: impl PathSyntax for BearingPathSyntax :: fn advance
+//@ before <<<self.index += 1;>>>
+//@ | proof { let _ = self.data.len(); }
+//@end
+//@item src/bearing.rs :: impl PathSyntax for BearingPathSyntax :: fn at_end
+//@end
+}
+
+impl PathBearing {
+//@item src/bearing.rs :: impl PathBearing :: fn new
+//@ replace[R-abstract] <<<BearingPathSyntax::new(data)>>> => <<<new_bearing_syntax(data)>>>
+//@end
+
+//@item src/bearing.rs :: impl PathBearing :: fn process_instruction
+//@ replace[R-orguard] <<<'m' | 'l' if self.bearing != 0. =>>>> => <<<g_ if (g_ == 'm' || g_ == 'l') && self.bearing != 0. =>>>>
+//@ replace[R-orguard] <<<'h' | 'v' if self.bearing != 0. =>>>> => <<<g_ if (g_ == 'h' || g_ == 'v') && self.bearing != 0. =>>>>
+//@ ensures
+//@ - r is Ok ==> final(self).tokens.idx() > old(self).tokens.idx()     @@C01.bearing.progress
+//@ - final(self).tokens.len() == old(self).tokens.len()
+//@ loop 1
+//@ invariant
+//@ - self.tokens.len() == old(self).tokens.len()
+//@ - self.tokens.idx() >= old(self).tokens.idx()
+//@ - self.tokens.idx() > old(self).tokens.idx() || (self.tokens.idx() < self.tokens.len() && !self.tokens.cmd_here())
+//@ ensures
+//@ - self.tokens.idx() > old(self).tokens.idx()
+//@ decreases
+//@ - (if self.tokens.len() >= self.tokens.idx() { self.tokens.len() - self.tokens.idx() } else { 0 })     @@C01.bearing.copy_terminates
+//@end
+
+//@item src/bearing.rs :: impl PathBearing :: fn evaluate
+//@ loop 1
+//@ invariant
+//@ - self.tokens.len() == old(self).tokens.len()
+//@ decreases
+//@ - (if self.tokens.len() >= self.tokens.idx() { self.tokens.len() - self.tokens.idx() } else { 0 })     @@C01.bearing.terminates
+//@end
+}
+
+//@item src/bearing.rs :: fn process_path_bearing
 //@end
 
 } // verus!
